@@ -4,9 +4,13 @@
 // The outcomes are judged by TLC (spec/TraceSyncDir.tla), never here.
 //
 // VERIF_IN   ndjson cases: {"case":id,"init":{name:tok},"des":{name:tok|"absent"},"globs":0..2,"flavour":n,"runs":k}
-//            tree cases additionally carry "tree":true and names of the form "<dir>/<name>"
+//
+//	tree cases additionally carry "tree":true and names of the form "<dir>/<name>"
+//
 // VERIF_OUT  ndjson: the case + "outs":[{"dir":{name:tok},"changed":[..],"removed":[..],"err":bool,
-//            "errmsg":..,"extra":[..],"panic":..}] (distinct outcomes) + "seen":[count per outcome]
+//
+//	"errmsg":..,"extra":[..],"panic":..}] (distinct outcomes) + "seen":[count per outcome]
+//
 // VERIF_TMP  scratch root (must be on a real filesystem)
 package syncdir
 
@@ -467,7 +471,7 @@ func TestVerifSyncDir(t *testing.T) {
 						o = runDirCase(c, root, c.Flavour+k)
 					}
 					n++
-					if n%128 == 0 {
+					if n%16 == 0 { // leaked *os.File readers of FileReference states are only closed by finalizers
 						runtime.GC()
 					}
 					msg := o.ErrMsg
